@@ -9,9 +9,10 @@
    [Q] and EVERY schedule.  Constants and skeletons come from Gen/*, i.e.
    from the repository's current source. *)
 From Coq Require Import String ZArith List Bool Arith.
-From SK Require Import Model.Base Model.Skel Model.Pipeline Spec.Pipeline
-     Proofs.Pipeline Proofs.PipelineSkel Proofs.PipelineEx
-     Gen.Params Gen.Skeleton.
+From SK Require Import Model.Base Model.Skel Model.Stm Model.Pipeline
+     Model.PipelineSk Model.SequenceSk Spec.Pipeline
+     Proofs.Pipeline Proofs.PipelineSkel Proofs.PipelineEx Proofs.PipelineSk
+     Gen.Params Gen.Skeleton Gen.SkelTree Gen.XPipeline.
 Import ListNotations.
 Open Scope string_scope.
 Open Scope list_scope.
@@ -247,6 +248,156 @@ Theorem C02_put_result_counts_once : counted_once sk_put_result = true.
 Proof. vm_compute. reflexivity. Qed.
 
 (* ------------------------------------------------------------------------
+   T1, tree skeletons (Gen/SkelTree.v) and source expressions
+   (Gen/XPipeline.v, translator/plugins/pipeline.py)
+
+   (a) calls, locks and if / loop / try structure of the extracted trees
+   (reads and writes erased) are the annotated shapes of
+   Model/PipelineSk.v *)
+Theorem C02_get_results_shape :
+  calls_only_list tk_get_results = expected_get_results.
+Proof. vm_compute. reflexivity. Qed.
+
+Theorem C02_purge_results_shape :
+  calls_only_list tk_purge_results = expected_purge_results.
+Proof. vm_compute. reflexivity. Qed.
+
+Theorem C02_put_result_shape :
+  calls_only_list tk_put_result = expected_put_result.
+Proof. vm_compute. reflexivity. Qed.
+
+Theorem C02_flush_results_buffer_shape :
+  calls_only_list tk_flush_results_buffer = expected_flush_results_buffer.
+Proof. vm_compute. reflexivity. Qed.
+
+Theorem C02_run_mp_shape :
+  calls_only_list tk_run_mp = expected_run_mp.
+Proof. vm_compute. reflexivity. Qed.
+
+(* what the interpreters run: the loop bodies of the two consumers and the
+   whole of put_result, with the reads of expected / collection /
+   stats_results kept *)
+Theorem C02_purge_body_core :
+  first_loop (core_list tk_purge_results) = Some purge_body_core.
+Proof. vm_compute. reflexivity. Qed.
+
+Theorem C02_collector_body_core :
+  first_loop (core_list tk_get_results) = Some collector_body_core.
+Proof. vm_compute. reflexivity. Qed.
+
+Theorem C02_put_result_core :
+  core_list tk_put_result = put_result_core.
+Proof. vm_compute. reflexivity. Qed.
+
+(* the source's tests and counter updates are the model's guards *)
+Theorem C02_source_tests :
+  (forall e, purge_take_test e = negb e) /\
+  (forall e l, purge_wait_test e l = (l <? e)) /\
+  (forall e, collector_take_test e = negb e) /\
+  (forall e, collector_stop_test e = e) /\
+  (forall x, run_mp_purge_expected x = x).
+Proof. repeat split; intros; reflexivity. Qed.
+
+(* ... in particular the purge loop is left exactly when the model's Return
+   guard holds: not (expected > len(results))  <->  expected <= |collected| *)
+Theorem C02_purge_wait_is_return_guard : forall e l,
+  negb (purge_wait_test e l) = (e <=? l).
+Proof.
+  intros e l. unfold purge_wait_test. rewrite Z.ltb_antisym.
+  apply negb_involutive.
+Qed.
+
+Definition source_put_params : put_params :=
+  mkPP put_count_update put_direct_test put_tries_init put_loop_test
+       put_first_try_test put_on_full put_gave_up_test.
+
+Theorem C02_source_put_params_ok : put_params_ok source_put_params.
+Proof. constructor; intros; reflexivity. Qed.
+
+(* (b) ONE ITERATION OF THE PURGE LOOP of the extracted tree - q_empty, q_get,
+   coll_add bound to the model's queue and collection, the two tests being
+   the source's own expressions - IS the model: PurgeStep when a batch is
+   queued; otherwise Return (loop left, run() returns) exactly when Return
+   is enabled; otherwise a Tick (the get timed out).  The lock is held
+   around get+add and released on every path, and no batch taken from the
+   queue is left unadded (else the interpretation is None). *)
+Theorem C02_purge_iteration_is_model : forall Q s,
+  ph s = Purging ->
+  run_purge_iter purge_take_test purge_wait_test tk_purge_results s
+  = Some (model_purge_iter Q s).
+Proof.
+  intros Q s. apply purge_iter_sound.
+  - exact C02_purge_body_core.
+  - intros; reflexivity.
+  - intros; reflexivity.
+Qed.
+
+(* one iteration of the collector thread's loop IS the model: Collect when a
+   batch is queued; otherwise the thread ends iff its stop was requested *)
+Theorem C02_collector_iteration_is_model : forall Q stop s,
+  ph s = Collecting ->
+  run_collector_iter collector_take_test collector_stop_test stop
+                     tk_get_results s
+  = Some (model_collector_iter Q stop s).
+Proof.
+  intros Q stop s. apply collector_iter_sound.
+  - exact C02_collector_body_core.
+  - intros; reflexivity.
+  - intros; reflexivity.
+Qed.
+
+(* put_result on the head batch of task t (then the pop of
+   _flush_results_buffer), worker mode: the count comes first; if the queue
+   has room the first attempt (put_nowait) succeeds and the result IS
+   Put t ... *)
+Theorem C02_put_result_is_Put : forall Q maxr t s tk b rest,
+  nth_error (tasks s) t = Some tk -> todo tk = b :: rest ->
+  1 <= maxr -> lenZ (queue s) < Q ->
+  exists s', step Q s (Put t) = Some s' /\
+  run_put source_put_params Q maxr false tk_put_result t s
+  = Some (mkPR s' true 1 0 maxr).
+Proof.
+  intros Q maxr t s tk b rest.
+  exact (put_fits_sound source_put_params Q maxr tk_put_result t s tk b rest
+                        C02_source_put_params_ok C02_put_result_core).
+Qed.
+
+(* ... if the queue stays full, exactly one put_nowait and maxr - 1 blocking
+   puts are attempted, the retry counter reaches 0 and the result IS Drop t
+   (the batch is counted in sent(t) but lost) *)
+Theorem C02_put_result_is_Drop : forall Q maxr t s tk b rest,
+  nth_error (tasks s) t = Some tk -> todo tk = b :: rest ->
+  1 <= maxr -> Q <= lenZ (queue s) ->
+  exists s', step Q s (Drop t) = Some s' /\
+  run_put source_put_params Q maxr false tk_put_result t s
+  = Some (mkPR s' false 1 (maxr - 1) 0).
+Proof.
+  intros Q maxr t s tk b rest.
+  exact (put_full_sound source_put_params Q maxr tk_put_result t s tk b rest
+                        C02_source_put_params_ok C02_put_result_core).
+Qed.
+
+Theorem C02_give_up_is_logged : put_gave_up_test 0 = true /\
+  1 <= MAX_QUEUE_RETRIES.
+Proof. vm_compute. split; [reflexivity|discriminate]. Qed.
+
+(* single-process mode (one file): the batch is counted and added to the
+   collection directly - the sequential search of Spec/Pipeline.v *)
+Theorem C02_put_result_direct : forall Q maxr t s tk b rest,
+  nth_error (tasks s) t = Some tk -> todo tk = b :: rest ->
+  run_put source_put_params Q maxr true tk_put_result t s
+  = Some (mkPR (mkState (set_nth t (mkTask rest (sent tk + lenZ b)
+                                           (finished tk)) (tasks s))
+                        (queue s) (add_batch b (collected s)) (expected s)
+                        (ph s) (lost s))
+               true 0 0 maxr).
+Proof.
+  intros Q maxr t s tk b rest.
+  exact (put_direct_sound source_put_params Q maxr tk_put_result t s tk b
+                          rest C02_source_put_params_ok C02_put_result_core).
+Qed.
+
+(* ------------------------------------------------------------------------
    Non-vacuity *)
 
 (* a 2-file run with capacity 1 (two Puts meet a full queue) that returns;
@@ -303,3 +454,7 @@ Print Assumptions C02_fair_schedule_returns.
 Print Assumptions C02_source_thresholds.
 Print Assumptions C02_purge_exit_meaning.
 Print Assumptions C02_run_mp_order_meaning.
+Print Assumptions C02_purge_iteration_is_model.
+Print Assumptions C02_collector_iteration_is_model.
+Print Assumptions C02_put_result_is_Put.
+Print Assumptions C02_put_result_is_Drop.
